@@ -98,6 +98,18 @@ Proof. exact spec_target_none_iff. Qed.
 Theorem C33_data_eq_spec : forall r s p, dispatch_data r s p = spec_data r s p.
 Proof. exact data_eq_spec. Qed.
 
+(* several changes added to readers of one subscriber in ONE worker pass: each is routed by the rule on
+   its own; with data-on-readers enabled at the subscriber every one of them is a data-on-readers call *)
+Theorem C33_data_pass_eq_spec :
+  forall c added, dispatch_data_pass c added = flat_map (fun i => spec_ev c (EvData i)) added.
+Proof. exact data_pass_eq_spec. Qed.
+
+Theorem C33_data_pass_all_on_readers :
+  forall c added, en (w_sub c) KDOR = true ->
+    dispatch_data_pass c added =
+      if l_inst (w_sub c) then repeat (LSub, KDOR) (length added) else [].
+Proof. exact data_pass_all_on_readers. Qed.
+
 (* ---- histories: every event of every history goes to exactly the listener the rule names *)
 Theorem C33_history_eq_spec : forall c es, run_events c es = spec_events c es.
 Proof. exact run_events_eq_spec. Qed.
@@ -164,3 +176,5 @@ Print Assumptions C33_at_most_one_listener_per_event.
 Print Assumptions C33_history_calls_bounded.
 Print Assumptions C33_strict_reading_eq_unless_swallowed.
 Print Assumptions C33_swallowed_differs.
+Print Assumptions C33_data_pass_eq_spec.
+Print Assumptions C33_data_pass_all_on_readers.
